@@ -71,6 +71,24 @@ def gen_cases(rng, tier, scale):
                     cases.append({'line': f'c{k2} ' + ' ; '.join(ops + seq), 'kind': 'entries', 'tpl': t, 'nsetup': 3, 'main_idx': main_idx,
                                   'pi': bool(pi), 'tags': ['config']})
                     k2 += 1
+    # history independence: render_template* under configuration B gives the same bytes whether the registry (or a
+    # clone of it) rendered the same template string under configuration A before or not
+    k3 = 0
+    for t in SENS:
+        for (pa, sa, ea), (pb, sb, eb) in [((0, 0, 0), (1, 0, 0)), ((1, 0, 0), (0, 0, 0)), ((0, 0, 0), (0, 1, 0)), ((0, 1, 1), (0, 0, 0)),
+                                           ((0, 0, 0), (0, 0, 1)), ((1, 1, 1), (0, 0, 0)), ((0, 0, 1), (1, 1, 0))]:
+            for via_clone in (False, True):
+                P1 = x('L1 {{v}}\nL2\n')
+                Dj = jtok(D2)
+                setup = [f'regs {x("p1")} {P1}']
+                rts = [f'rt {e} {x(t)} {Dj} -1' for e in (4, 5, 6, 7)]
+                hist = [f'pi {pa}', f'strict {sa}', f'esc {ea}'] + setup + rts
+                hist += (['clone', 'sel 1'] if via_clone else []) + [f'pi {pb}', f'strict {sb}', f'esc {eb}'] + rts
+                fresh = [f'pi {pb}', f'strict {sb}', f'esc {eb}'] + setup + rts
+                grp = f'h{k3}'
+                k3 += 1
+                cases.append({'line': f'{grp}a ' + ' ; '.join(hist), 'kind': 'hist', 'grp': grp, 'tpl': t, 'tags': ['history' + ('-clone' if via_clone else '')]})
+                cases.append({'line': f'{grp}b ' + ' ; '.join(fresh), 'kind': 'fresh', 'grp': grp, 'tpl': t, 'tags': ['history-fresh']})
     # F12: which error is reported when several hash subexpressions fail varies between identical calls
     cases.append({'line': 'f12 probes ; ' + ' ; '.join([f'rt 4 {x("{{dump a=(n1) b=(n2) c=(n3) d=(n4)}}")} {{}} -1'] * 12),
                   'kind': 'f12', 'tpl': '', 'tags': ['F12']})
@@ -86,9 +104,23 @@ def key(tok, same_name=True):
         return ('err', r['reason'], r['payload'])
     return (r['kind'],)
 
+def oracle_all(byid):
+    out, g = [], {}
+    for cid, (c, mo, io) in byid.items():
+        if c['kind'] in ('hist', 'fresh') and io:
+            g.setdefault(c['grp'], {})[c['kind']] = (c, [t for t in io.split(' ') if t.startswith('R:') or t == 'PANIC'])
+    for k, d in g.items():
+        if len(d) == 2:
+            (ch, h), (cf, f) = d['hist'], d['fresh']
+            if len(h) == 8 and len(f) == 4 and [key(t) for t in h[4:]] != [key(t) for t in f]:
+                out.append((ch, f'render_template after a render under another configuration differs from a fresh registry: {[key(t) for t in h[4:]][:2]} vs {[key(t) for t in f][:2]}'))
+    return out
+
 def oracle(c, io, mo):
     if io is None:
         return 'no output'
+    if c['kind'] in ('hist', 'fresh'):
+        return None
     toks = io.split(' ')
     if c['kind'] == 'f12':
         ks = {key(t) for t in toks}
@@ -110,6 +142,8 @@ def oracle(c, io, mo):
     return None
 
 def nontrivial(c, mo, io):
+    if c['kind'] in ('hist', 'fresh'):
+        return io is not None and 'R:ok:x' in io
     return io is not None and ('R:ok:x' in io and 'R:ok:x:' not in io.split(' ')[c.get('nsetup', 0)] or 'R:err' in io)
 
 def relevant_difference(c, mo, io):
